@@ -78,6 +78,9 @@ def check(case):
         kw['name'] = cfg['name']
     if cfg.get('override_int'):
         kw['override_fields'] = {header[0]: {'type': 'integer'}}
+    if cfg.get('override_dates'):
+        # two columns of the same type whose formats differ: the same cell text means different values
+        kw['override_fields'] = {header[0]: {'type': 'date', 'format': '%d/%m/%Y'}, header[1]: {'type': 'date', 'format': '%m/%d/%Y'}}
     if cfg.get('on_error'):
         kw['on_error'] = {'raise': sv.raise_exception, 'drop': sv.drop, 'ignore': sv.ignore, 'clear': sv.clear}[cfg['on_error']]
     label = 'load(csv %r + %d lines%s, %s)' % (header, len(lines), ' CRLF' if crlf else '', cj(cfg))
@@ -282,6 +285,12 @@ def cases(tier):
                 if crlf and tier == 'quick' and cfg.get('infer') == 'pytypes':
                     continue
                 out.append({'header': header, 'lines': lines, 'crlf': crlf, 'cfg': cfg})
+    dates = ['01/02/2020', '03/04/2021', '12/11/2020']
+    for n in (1, 2):
+        for t in itertools.product(itertools.product(dates, repeat=2), repeat=n):
+            for strip in (True, False):
+                out.append({'header': ['d1', 'd2'], 'lines': [list(x) for x in t], 'crlf': False,
+                            'cfg': {'cast': 'schema', 'override_dates': True, 'strip': strip}})
     from . import c10
     for names in (['a', 'ab', 'a.b'], ['aXb', 'a.b', 'a'], ['a']):
         for _, sel in c10.SELECTORS:
